@@ -2,10 +2,14 @@
 
 package stringSplitter
 
+// sp_idx(s): number of elements handed out so far (the k-th call returns element k-1)
+//@ ghost sp_idx(rare/pkg/stringSplitter.Splitter) int
+
 //@ func (*Splitter).Next
 //@   requires len(s.Delim) >= 1
 //@   requires s.next <= len(s.S)
-//@   modifies s.next
+//@   modifies s.next, ghost sp_idx(s)
+//@   ghostset sp_idx(s) := old(sp_idx(s)) + 1
 //@   ensures [window] s.next <= len(s.S)
 //@   ensures old(s.next) < 0 ==> ret == "" && s.next == old(s.next)
 //@   ensures old(s.next) >= 0 && str_index(s.S[old(s.next):], s.Delim) < 0 ==> ret == s.S[old(s.next):] && s.next == -1
@@ -15,7 +19,8 @@ package stringSplitter
 //@ func (*Splitter).NextOk
 //@   requires len(s.Delim) >= 1
 //@   requires s.next <= len(s.S)
-//@   modifies s.next
+//@   modifies s.next, ghost sp_idx(s)
+//@   ensures sp_idx(s) == old(sp_idx(s)) + 1
 //@   ensures [window] s.next <= len(s.S)
 //@   ensures ok == (old(s.next) >= 0)
 //@   ensures old(s.next) < 0 ==> ret == "" && s.next == old(s.next)
